@@ -161,6 +161,9 @@ package jws
 //@   ensures [accept=>rules] result == nil ==> SchemeRules(protectedHeader) && CritRules(protectedHeader) && SignedAttrsOf(signerInfo, protectedHeader)
 //@   ensures [rules=>accept] (SchemeRules(protectedHeader) && CritRules(protectedHeader) && IsJWSAlgName(protectedHeader.Algorithm)) ==> result == nil
 //@   ensures [frame] signerInfo.Signature == old(signerInfo.Signature) && signerInfo.CertificateChain == old(signerInfo.CertificateChain) && signerInfo.UnsignedAttributes == old(signerInfo.UnsignedAttributes)
+// stmt C07/C08: an absent expiry (and, under notary.x509, an absent signing time) is not invented on the read side
+//@   ensures [no-expiry=>kept] (result == nil && protectedHeader.Expiry == nil) ==> signerInfo.SignedAttributes.Expiry == old(signerInfo.SignedAttributes.Expiry)
+//@   ensures [no-time=>kept] (result == nil && protectedHeader.SigningScheme == signature.SigningSchemeX509 && protectedHeader.SigningTime == nil) ==> signerInfo.SignedAttributes.SigningTime == old(signerInfo.SignedAttributes.SigningTime)
 
 // stmt C01/C02 (JWS): the signature over the carried 'protected.payload' verifies under the given key with one of the
 // six methods, the one named by the exact "alg" member
@@ -183,6 +186,7 @@ package jws
 //@   ensures [err] err != nil ==> result == nil
 //@   ensures [ok=>header-rules] err == nil ==> result != nil && fresh(result) && SchemeRules(protected) && CritRules(protected) && SignedAttrsOf(result, protected)
 //@   ensures [ok=>signature] err == nil ==> B64OK(e.base.Signature) && result.Signature == B64(e.base.Signature) && len(result.Signature) > 0
+//@   ensures [ok=>absent-stays-zero] err == nil ==> (protected.Expiry == nil ==> result.SignedAttributes.Expiry.IsZero()) && ((protected.SigningScheme == signature.SigningSchemeX509 && protected.SigningTime == nil) ==> result.SignedAttributes.SigningTime.IsZero())
 //@   ensures [ok=>chain] err == nil ==> ChainOf(result.CertificateChain, e.base.Header.CertChain) && nx509.ChainInput(result.CertificateChain)
 //@   ensures [ok=>unsigned] err == nil ==> result.UnsignedAttributes.SigningAgent == e.base.Header.SigningAgent && result.UnsignedAttributes.TimestampSignature == e.base.Header.TimestampSignature
 //@   loop 0
@@ -196,7 +200,8 @@ package jws
 //@     c.SignerInfo.Signature == B64(m.Signature) && len(c.SignerInfo.Signature) > 0 &&
 //@     ChainOf(c.SignerInfo.CertificateChain, m.Header.CertChain) &&
 //@     c.SignerInfo.UnsignedAttributes.SigningAgent == m.Header.SigningAgent && c.SignerInfo.UnsignedAttributes.TimestampSignature == m.Header.TimestampSignature &&
-//@     (exists h *jwsProtectedHeader :: HeaderOf(h, B64(m.Protected)) && SchemeRules(h) && CritRules(h) && SignedAttrsOf(fieldptr(c, SignerInfo), h)) }
+//@     (exists h *jwsProtectedHeader :: HeaderOf(h, B64(m.Protected)) && SchemeRules(h) && CritRules(h) && SignedAttrsOf(fieldptr(c, SignerInfo), h) &&
+//@          (h.Expiry == nil ==> c.SignerInfo.SignedAttributes.Expiry.IsZero()) && ((h.SigningScheme == signature.SigningSchemeX509 && h.SigningTime == nil) ==> c.SignerInfo.SignedAttributes.SigningTime.IsZero())) }
 
 //@ func (*envelope).Content(e)
 //@   refines (signature.Envelope).Content except meaning
